@@ -1,6 +1,7 @@
 package chainsim
 
 import (
+	"bytes"
 	"fmt"
 	"os"
 	"path/filepath"
@@ -167,25 +168,62 @@ func runTwin(p *Plan, tree *refTree, res *simcore.Result) *history {
 		res.Fail(v)
 	}
 	w.engine.Close()
+	// Event-log hash. The freezer walks its table map in Go's random order (SyncAncient,
+	// TruncateHead, commit), so the interleaving of different files inside one burst of
+	// file events is not decided by the seed: a burst (file events with no key-value unit
+	// in between) is hashed as per-file sequences in path order.
 	hh := simcore.NewHash().U64(uint64(w.trace))
 	ki, fi := 0, 0
+	var dump *os.File
+	if fn := os.Getenv("CHAINSIM_DUMPLOG"); fn != "" {
+		dump, _ = os.Create(fn)
+		defer dump.Close()
+		fmt.Fprintf(dump, "trace %x\n", uint64(w.trace))
+	}
+	var burst []*simos.Event
+	flush := func() {
+		sort.SliceStable(burst, func(i, j int) bool { return burst[i].Path < burst[j].Path })
+		for _, e := range burst {
+			hh = hh.U64(uint64(e.Kind)).String(e.Path[len(w.root):]).U64(uint64(e.Off)).U64(uint64(len(e.Data)))
+			if dump != nil {
+				fmt.Fprintf(dump, "file %s %s %d %d\n", e.Kind, e.Path[len(w.root):], e.Off, len(e.Data))
+			}
+		}
+		burst = burst[:0]
+	}
 	for ki < len(h.kvlog) || fi < len(h.events) {
 		if fi >= len(h.events) || (ki < len(h.kvlog) && h.kvlog[ki].Seq < h.events[fi].Seq) {
+			flush()
 			op := &h.kvlog[ki]
-			hh = hh.U64(uint64(op.Kind)).Bytes(op.Key).U64(uint64(len(op.Batch)))
-			for j := range op.Batch {
-				hh = hh.Bytes(op.Batch[j].Key).U64(uint64(len(op.Batch[j].Val)))
+			if op.Seq <= h.endSeq {
+				hh = hh.U64(uint64(op.Kind)).Bytes(op.Key).U64(uint64(len(op.Batch)))
+				// trie nodes reach a batch in map order: a batch is hashed as a key-sorted list
+				idx := make([]int, len(op.Batch))
+				for j := range idx {
+					idx[j] = j
+				}
+				sort.SliceStable(idx, func(a, b int) bool { return bytes.Compare(op.Batch[idx[a]].Key, op.Batch[idx[b]].Key) < 0 })
+				for _, j := range idx {
+					hh = hh.U64(uint64(op.Batch[j].Kind)).Bytes(op.Batch[j].Key).U64(uint64(len(op.Batch[j].Val)))
+					if dump != nil {
+						fmt.Fprintf(dump, "  sub %d %x %d\n", op.Batch[j].Kind, op.Batch[j].Key, len(op.Batch[j].Val))
+					}
+				}
+				if dump != nil {
+					fmt.Fprintf(dump, "kv %d %x %d\n", op.Kind, op.Key, len(op.Batch))
+				}
 			}
 			ki++
 		} else {
 			e := &h.events[fi]
 			if e.Seq <= h.endSeq {
-				hh = hh.U64(uint64(e.Kind)).String(e.Path[len(w.root):]).U64(uint64(e.Off)).U64(uint64(len(e.Data)))
+				burst = append(burst, e)
 				h.fileSeqs = append(h.fileSeqs, e.Seq)
 			}
 			fi++
 		}
 	}
+	flush()
 	h.logHash = uint64(hh)
 	return h
 }
@@ -349,7 +387,7 @@ func runCrash(p *Plan, tree *refTree, res *simcore.Result) {
 	res.Faults["crash-cut"] += len(cuts)
 	res.NonTrivial = res.Reboots > 2
 	res.StateFP = uint64(fp.U64(h.endSeq))
-	res.LogHash = uint64(simcore.NewHash().U64(h.logHash).U64(uint64(fp)))
+	res.LogHash = h.logHash // the twin's event log; reboot outcomes are in StateFP (cuts fall on the actual, not the canonicalised, order)
 }
 
 type rebooter struct {
@@ -416,7 +454,7 @@ func (rb *rebooter) run(model *simdisk.FSModel, img map[string][]byte, mem *memo
 		w.db = db
 		// what the image durably holds, read before the chain touches it
 		bound, boundWhy = rb.noLossBound(db)
-		bc, err := core.NewBlockChain(db, rb.tree.gspec, rb.engine, rb.p.Knobs.config(nroot))
+		bc, err := core.NewBlockChain(db, rb.tree.gspec, rb.engine, rb.p.Knobs.configWait(nroot, false))
 		if err != nil {
 			v := viol("reboot-chain-failed", "NewBlockChain on the crash image failed: %v", err)
 			v.Key = "reboot-chain-failed:" + rb.modeKey() + ":" + classOf(err.Error())
